@@ -97,6 +97,8 @@ def run(ck):
         # switch back to async while data keeps arriving: buffered bytes first, then the later ones, nothing missing
         "8 | io=accept:1,waitflag:s,data:1:2,data:1:2,data:1:2,data:1:1,setflag:d ; main=mode:1:sync,setflag:s,recv:1:1:200,mode:1:async,waitflag:d,expectall:1",
         "16 | io=accept:1,waitflag:s,data:1:3,data:1:2,setflag:d ; main=mode:1:sync,setflag:s,waitflag:d ; a=waitflag:s,recv:1:2:200 ; b=waitflag:s,mode:1:async",
+        # (the flush starts while the engine still has chunks to deliver: the second flag releases them right before the switch)
+        "16 | io=accept:1,waitflag:s,data:1:2,data:1:1,waitflag:s2,data:1:2,data:1:2,data:1:1,setflag:d ; main=mode:1:sync,setflag:s,recv:1:1:200,setflag:s2,mode:1:async,waitflag:d,expectall:1",
         # Disabled delivers nothing; what arrives afterwards is delivered
         "8 | io=accept:1,waitflag:s,data:1:2:dis,data:1:3:dis,setflag:d1,waitflag:s2,data:1:2,data:1:1,setflag:d ; main=mode:1:disabled,setflag:s,waitflag:d1,mode:1:async,setflag:s2,waitflag:d,expectall:1",
         "8 | io=accept:1,waitflag:s,data:1:2:dis,setflag:d1,waitflag:s2,data:1:2,close:1 ; main=mode:1:disabled,setflag:s,waitflag:d1,mode:1:sync,setflag:s2,recv:1:4:200,recv:1:4:200",
@@ -109,6 +111,9 @@ def run(ck):
         "8 | io=accept:1 ; main=mode:1:sync,recv:1:8:30,recv:1:8:40",
         # two readers on one session (single-waiter contract)
         "8 | io=accept:1,waitflag:s,data:1:2,data:1:2,close:1 ; main=mode:1:sync,setflag:s ; a=waitflag:s,recv:1:2:200,recv:1:4:200 ; b=waitflag:s,recv:1:2:200,recv:1:4:200",
+        # buffers of closed sessions that still hold unread bytes survive the tombstone GC (threshold 2) and a late reader drains them
+        "16/2 | io=accept:1,accept:2,accept:3,accept:4,accept:5,waitflag:s,data:1:5,close:1,close:2,close:3,close:4,close:5,setflag:d ; main=mode:1:sync,setflag:s,waitflag:d,recv:1:3:200,recv:1:3:200,recv:1:3:200,expectall:1",
+        "16/1 | io=accept:1,accept:2,waitflag:s,data:1:2,data:2:3,close:2,close:1,accept:3,close:3,setflag:d ; main=mode:1:sync,mode:2:sync,setflag:s,waitflag:d,recv:2:8:200,recv:1:8:200,recv:2:8:100,expectall:1,expectall:2",
         # two sessions: streams do not mix
         "8 | io=accept:1,accept:2,waitflag:s,data:1:2,data:2:3,data:1:1,close:2,close:1 ; main=mode:1:sync,mode:2:sync,setflag:s ; a=waitflag:s,recv:1:4:200,recv:1:4:200,recv:1:4:200 ; b=waitflag:s,recv:2:2:200,recv:2:2:200,recv:2:2:200",
     ]
@@ -118,7 +123,7 @@ def run(ck):
         for k in range(nsched if p not in hand else nsched * 4):
             lines.append("%s | random %d" % (p, ck.seed * 1000003 + i * 101 + k))
     tc.run_cases(ck, lines, "random", nontrivial)
-    dfs = [hand[0], hand[4], hand[9]] if not thorough else hand
+    dfs = [hand[0], hand[2], hand[5], hand[10]] if not thorough else hand
     for j, p in enumerate(dfs):
         tc.run_dfs(ck, p, 2 if thorough else 1, 30000 if thorough else 1500, "dfs%d" % j, nontrivial)
 
